@@ -107,17 +107,17 @@ pub(crate) fn add(left: Value, right: Value, options: &Options, span: Span) -> S
                 }
             }
             Value::String(s, q) => Value::String(
-                format!("{}{}{}", num.to_string(options.is_compressed()), unit, s),
+                format!("{}{}{}", num.to_string(false), unit, s),
                 q,
             ),
             Value::Null => Value::String(
-                format!("{}{}", num.to_string(options.is_compressed()), unit),
+                format!("{}{}", num.to_string(false), unit),
                 QuoteKind::None,
             ),
             Value::True | Value::False | Value::List(..) | Value::ArgList(..) => Value::String(
                 format!(
                     "{}{}{}",
-                    num.to_string(options.is_compressed()),
+                    num.to_string(false),
                     unit,
                     right.to_css_string(span, options.is_compressed())?
                 ),
@@ -258,7 +258,7 @@ pub(crate) fn sub(left: Value, right: Value, options: &Options, span: Span) -> S
             | Value::ArgList(..) => Value::String(
                 format!(
                     "{}{}-{}",
-                    num.to_string(options.is_compressed()),
+                    num.to_string(false),
                     unit,
                     right.to_css_string(span, options.is_compressed())?
                 ),
@@ -284,7 +284,7 @@ pub(crate) fn sub(left: Value, right: Value, options: &Options, span: Span) -> S
                     .into())
             }
             Value::Null => Value::String(
-                format!("{}{}-", num.to_string(options.is_compressed()), unit),
+                format!("{}{}-", num.to_string(false), unit),
                 QuoteKind::None,
             ),
         },
